@@ -186,4 +186,63 @@ def ipMatch (ip1 ip2 : List Char) : Option Bool :=
       | [single] => (parseIPv4 single).map (fun b => a == b)
       | _ => none
 
+/-! ### IPMatch (IPv6: hex groups with at most one `::`; no zone, no embedded dotted quad) -/
+
+def hexDigitVal (c : Char) : Option Nat :=
+  if '0' ≤ c ∧ c ≤ '9' then some (c.toNat - '0'.toNat)
+  else if 'a' ≤ c ∧ c ≤ 'f' then some (c.toNat - 'a'.toNat + 10)
+  else if 'A' ≤ c ∧ c ≤ 'F' then some (c.toNat - 'A'.toNat + 10)
+  else none
+
+/-- one group: 1 to 4 hex digits -/
+def parseHexGroup (s : List Char) : Option Nat :=
+  if s.isEmpty || s.length > 4 then none
+  else (s.mapM hexDigitVal).map (fun ds => ds.foldl (fun acc d => acc * 16 + d) 0)
+
+def parseGroups (s : List Char) : Option (List Nat) :=
+  if s.isEmpty then some [] else (splitOnChar ':' s).mapM parseHexGroup
+
+/-- split at the first "::" -/
+def splitEllipsis : List Char → Option (List Char × List Char)
+  | [] => none
+  | ':' :: ':' :: rest => some ([], rest)
+  | c :: cs => (splitEllipsis cs).map (fun (a, b) => (c :: a, b))
+
+def groupsToNat (gs : List Nat) : Nat := gs.foldl (fun acc g => acc * 65536 + g) 0
+
+def parseIPv6 (s : List Char) : Option Nat :=
+  match splitEllipsis s with
+  | none =>
+      match parseGroups s with
+      | some gs => if gs.length == 8 then some (groupsToNat gs) else none
+      | none => none
+  | some (l, r) =>
+      if (splitEllipsis r).isSome then none
+      else match parseGroups l, parseGroups r with
+        | some gl, some gr =>
+            if gl.length + gr.length ≤ 7 then some (groupsToNat (gl ++ List.replicate (8 - gl.length - gr.length) 0 ++ gr)) else none
+        | _, _ => none
+
+def parsePrefixLen6 (s : List Char) : Option Nat :=
+  if s.isEmpty || s.length > 3 || !s.all Char.isDigit then none
+  else if s.length > 1 && s.head? == some '0' then none
+  else
+    let n := s.foldl (fun acc c => acc * 10 + (c.toNat - '0'.toNat)) 0
+    if n ≤ 128 then some n else none
+
+/-- `IPMatch` on IPv6 text -/
+def ipMatch6 (ip1 ip2 : List Char) : Option Bool :=
+  match parseIPv6 ip1 with
+  | none => none
+  | some a =>
+      match splitOnChar '/' ip2 with
+      | [net, len] =>
+          match parseIPv6 net, parsePrefixLen6 len with
+          | some n, some l =>
+              let shift := 128 - l
+              some (a / 2 ^ shift == n / 2 ^ shift)
+          | _, _ => none
+      | [single] => (parseIPv6 single).map (fun b => a == b)
+      | _ => none
+
 end Casbin.KM
